@@ -3,8 +3,12 @@
 P="$1"; ID="$2"; TIER="${3:-quick}"
 cd /verif
 git -C /repo apply "$P" || { echo "PATCH DOES NOT APPLY"; exit 9; }
-./.venv/bin/python -m symx.check "$ID" --tier "$TIER" --no-evidence 2>&1 | tail -${TAILN:-12}
+./.venv/bin/python -m symx.check "$ID" --tier "$TIER" --no-evidence > /tmp/try_patch.$$ 2>&1
 RC=$?
-git -C /repo checkout -- . 
-git -C /repo status --short | grep -v '^?? -q' 
+grep -c '^VIOLATION' /tmp/try_patch.$$ | sed 's/^/violation lines: /'
+grep 'violated obligation' /tmp/try_patch.$$ | cut -c1-160 | sort | uniq -c | sort -rn | head -${TAILN:-6}
+tail -2 /tmp/try_patch.$$ | cut -c1-400
+rm -f /tmp/try_patch.$$
+git -C /repo checkout -- .
+git -C /repo status --short | grep -v '^?? -q'
 echo "exit=$RC"
